@@ -32,6 +32,7 @@ def run(ctx):
     _run_main7(ctx)
     _round7(ctx)
     _round8(ctx)
+    _round10(ctx)
 
 
 def _run_main7(ctx):
@@ -168,3 +169,45 @@ def _round8(ctx):
     from rules import arms as A
     with ctx.rule('R06.8', "[CloseOk][EOF] means the same however it is segmented: end of stream after the client's close completed is not an error (shared with C08)", floor=1) as r:
         A.include(ctx, r, 'c08', 'R08.6', pick=('eof-after-clientclosed-is-ok',))
+
+
+def _round10(ctx):
+    """Found by seeding round 10 (a read into 'what is left of the buffer': a reserve of zero at a frame boundary trips the reader's own assertion, at one segmentation only)."""
+    import re
+    with ctx.rule('R06.9', 'the room asked for before a read does not depend on how full the buffer is and is never shrunk: it is built from constants, configuration and the frame size, without min / subtraction / division', floor=8) as r:
+        rows = P.table(ctx, RF, ['self', 'stream', 'handler'])
+        site = ctx.site(RF)
+        PRE = 'input_buffer::InputBuffer::prepare_reserve(self.buf, '
+        SHRINK = ('::min(', ' - ', '_sub(', ' / ', ' % ', ' >> ', '::clamp(', '_div(', '_rem(')
+        n = 0
+        for x in rows:
+            at = [k for k, e in enumerate(x.effects) if e.startswith(PRE) and e.endswith(')')]
+            if not at:
+                continue
+            n += 1
+            val = x.effects[at[0]][len(PRE):-1]
+            # read mutable locals through the assignments on this path, in order (`let mut reserve = A; reserve = f(reserve, ..)`)
+            env = {}
+
+            def subst(t):
+                return re.sub(r'\$m\d+', lambda m_: env.get(m_.group(0), m_.group(0)), t)
+            for e in x.effects[:at[0]]:
+                m_ = re.match(r'(?:let )?(\$m\d+) (=|[-+*/%]=|<<=|>>=) (.*)$', e)
+                if not m_:
+                    continue
+                mv, op, rhs = m_.groups()
+                rhs = subst(rhs)
+                rhs = '(%s)' % rhs if ' ' in rhs and not rhs.endswith(')') else rhs
+                env[mv] = rhs if op == '=' else '(%s %s %s)' % (env.get(mv, mv), op[:-1], rhs)
+            val = subst(val)
+            undecided = False
+            if undecided or val in ('()', '') or re.search(r'\$\w', val):
+                # the value reaches the call through a form the reader does not evaluate (e.g. `let reserve = loop { .. break v }`): no verdict, no alarm
+                r.check('reserve-never-shrunk:%s:%d' % (x.done, n), True, site, built='undecided: ' + val)
+                continue
+            rest = val.replace(SIZE + '.Some.0', 'SIZE')
+            bad = [t for t in SHRINK if t in rest] + (['self.buf'] if 'self.buf' in rest else []) + (['0'] if rest.strip('()') == '0' else [])
+            tag = 'known-size' if x.conds[0][1] == 'Some(_)' else 'unknown-size'
+            r.check('reserve-never-shrunk:%s:%s:%d' % (tag, x.done, n), not bad, site, built=val, expected='a term over constants, configuration and the frame size without ' + ', '.join(SHRINK) + ' and without reading self.buf',
+                    why='input_buffer asserts a positive reserve and a zero-length read is reported as end of stream: a reserve that depends on how full the buffer is makes the outcome depend on where the reads were cut (%s)' % ', '.join(bad))
+        r.check('reading-rows', n >= 8, site, built=n, expected='>= 8')
